@@ -21,7 +21,7 @@ func init() {
 		Level: "exploration",
 		Rule: "a real p9p.CSession client in front of a scripted fake server (raw wire, reference codec). (a) Rounds on one session: N in {1..64} concurrent callers of mixed kinds (Read, Stat, Walk, Open, Attach, Write, Create), every call and every reply carrying a unique id; the server collects the requests, " +
 			"answers them in a PRNG permutation in several batches with new callers arriving in between, some replies are Rerror, some callers abandon their call (context cancelled) before the reply and are answered late — in the same or a later round. (b) Tag wrap: one session, >= 70 000 calls from 8 pipelining callers answered at once, " +
-			"while L in {1,17,200} long-outstanding (some abandoned) calls pin tags spread over the tag space; thorough repeats with 200 000 calls. (c) Depletion: 65535 calls are abandoned as their requests arrive and never answered, so that every tag is outstanding; one more call must fail without putting a request on the wire; after the replies are sent a new call succeeds. (d) calls issued with an already ended context while others are pending. (e) Idle wrap: 66 100 strictly sequential calls (nothing outstanding when the counter passes 0xFFFE), and the call that receives tag 0 after the wrap held back while the connection's read side reports temporary timeouts (nothing lost) - it must neither return nor be disturbed. Online monitor: a request's tag is never NOTAG and never equal to a tag still awaiting its reply on the server side (including abandoned calls); each call returns the result carrying its own id (or the error text of its Rerror); " +
+			"while L in {1,17,200} long-outstanding (some abandoned) calls pin tags spread over the tag space; thorough repeats with 200 000 calls. (c) Depletion: 65535 calls are abandoned as their requests arrive and never answered, so that every tag is outstanding; one more call must fail without putting a request on the wire; after the replies are sent a new call succeeds. (d) calls issued with an already ended context while others are pending. (e) Idle wrap (run once with ordinary replies and once with every request answered by an Rerror): 66 100 strictly sequential calls (nothing outstanding when the counter passes 0xFFFE), and the call that receives tag 0 after the wrap held back while the connection's read side reports temporary timeouts (nothing lost) - it must neither return nor be disturbed. Online monitor: a request's tag is never NOTAG and never equal to a tag still awaiting its reply on the server side (including abandoned calls); each call returns the result carrying its own id (or the error text of its Rerror); " +
 			"at quiescence every call whose reply was sent has returned; the wrap 0xFFFE->0 must be observed in (b). Go race detector on transport.go / csession.go / channel.go. non-trivial = >= 2 outstanding tags and >= 1 reply out of request order; distinct by hash of (arrival order, reply order)",
 		Assumptions: []string{
 			"the fake server is the judge of 'awaiting a reply': a tag is outstanding from the moment its request is parsed until the script sends its reply",
@@ -32,7 +32,7 @@ func init() {
 		Shards:    shards(8, 16),
 		Timeout:   timeouts(12*time.Minute, 90*time.Minute),
 		MinEvals:  50,
-		Required:  []string{"rounds", "replies_out_of_order", "abandoned_then_answered_late", "error_replies", "wrap_runs", "tag_wraps_observed", "pinned_tags_skipped_checks", "calls_returned_own_uid", "abandoned_during_write", "pin_bursts_below_notag", "dead_context_calls_among_pending", "depletion_runs", "depleted_call_refused", "idle_wrap_runs", "read_hiccups_with_tag0_outstanding"},
+		Required:  []string{"rounds", "replies_out_of_order", "abandoned_then_answered_late", "error_replies", "wrap_runs", "tag_wraps_observed", "pinned_tags_skipped_checks", "calls_returned_own_uid", "abandoned_during_write", "pin_bursts_below_notag", "dead_context_calls_among_pending", "depletion_runs", "depleted_call_refused", "idle_wrap_runs", "idle_wrap_runs_error_replies", "read_hiccups_with_tag0_outstanding"},
 		Run:       runC05,
 	})
 }
@@ -71,7 +71,11 @@ func runC05(w *mon.W) {
 	for i := 0; i < w.Scale(1, 2)*w.NShards; i++ {
 		// an idle wrap: strictly sequential calls, nothing outstanding when the tag counter wraps
 		if w.Mine(i) && i >= 4 && i < 4+w.Scale(1, 2) {
-			runC05IdleWrap(w, i)
+			runC05IdleWrap(w, i, false)
+		}
+		// the same with every request answered by an error reply
+		if w.Mine(i) && i >= 6 && i < 6+w.Scale(1, 2) {
+			runC05IdleWrap(w, i, true)
 		}
 	}
 	wraps := w.Scale(1, 5)
@@ -776,16 +780,32 @@ func runC05Depletion(w *mon.W, no int) {
 
 // runC05IdleWrap: one caller, one call at a time, so that no tag is outstanding when the
 // allocator passes the end of the tag space.
-func runC05IdleWrap(w *mon.W, no int) {
+func runC05IdleWrap(w *mon.W, no int, errorsOnly bool) {
+	answer := func(fc *p9p.Fcall) *p9p.Fcall {
+		if errorsOnly {
+			return &p9p.Fcall{Type: p9p.Rerror, Tag: fc.Tag, Message: p9p.MessageRerror{Ename: fmt.Sprintf("e-%d", uidOfRequest(fc))}}
+		}
+		return replyFor(fc, uidOfRequest(fc))
+	}
+	own := func(r callRes, uid int) bool {
+		if errorsOnly {
+			re, ok := r.err.(p9p.MessageRerror)
+			return ok && re.Ename == fmt.Sprintf("e-%d", uid)
+		}
+		return r.err == nil && r.uid == uid
+	}
 	h := newCliH(0, 1<<20)
 	defer h.close()
-	w.Case("C05 idle wrap run #%d", no)
+	w.Case("C05 idle wrap run #%d (error replies only: %v)", no, errorsOnly)
 	if err := h.dial(); err != nil {
 		w.Inconclusive("dial: %v", err)
 		return
 	}
 	w.Eval()
 	w.Count("idle_wrap_runs", 1)
+	if errorsOnly {
+		w.Count("idle_wrap_runs_error_replies", 1)
+	}
 	var mu sync.Mutex
 	seen, wraps, lastTag := 0, 0, -1
 	violated := false
@@ -813,7 +833,7 @@ func runC05IdleWrap(w *mon.W, no int) {
 			return
 		}
 		mu.Unlock()
-		h.reply(replyFor(fc, uidOfRequest(fc)))
+		h.reply(answer(fc))
 	}
 	h.mu.Unlock()
 	glitchDone := make(chan struct{})
@@ -824,7 +844,7 @@ func runC05IdleWrap(w *mon.W, no int) {
 		for k := 0; k < 3; k++ {
 			h.fault.Glitch(1)
 			r := doCall(context.Background(), h.sess, ckStat, 900001+k)
-			if r.err != nil || r.uid != 900001+k {
+			if !own(r, 900001+k) {
 				w.Violate("mismatch", "C05:crossed-reply", fmt.Sprintf("idle wrap: ping call during a read hiccup returned uid=%d err=%v", r.uid, r.err), nil)
 			}
 		}
@@ -832,7 +852,7 @@ func runC05IdleWrap(w *mon.W, no int) {
 		mu.Lock()
 		fc := held
 		mu.Unlock()
-		h.reply(replyFor(fc, uidOfRequest(fc)))
+		h.reply(answer(fc))
 	}()
 	const total = 66100
 	done := make(chan struct{})
@@ -842,9 +862,9 @@ func runC05IdleWrap(w *mon.W, no int) {
 		ctx := context.Background()
 		for uid := 1; uid <= total; uid++ {
 			r := doCall(ctx, h.sess, callKind(uid%int(nCallKinds)), uid)
-			if r.err != nil || r.uid != uid {
+			if !own(r, uid) {
 				if atomic.LoadInt32(&tearingDown) == 0 {
-					w.Violate("mismatch", "C05:crossed-reply", fmt.Sprintf("idle wrap: call uid=%d returned uid=%d err=%v", uid, r.uid, r.err), nil)
+					w.Violate("mismatch", "C05:crossed-reply", fmt.Sprintf("idle wrap (error replies only: %v): call uid=%d returned uid=%d err=%v", errorsOnly, uid, r.uid, r.err), nil)
 				}
 				return
 			}
@@ -882,6 +902,6 @@ func runC05IdleWrap(w *mon.W, no int) {
 		w.Inconclusive("idle wrap run saw no tag wrap in %d requests", seen)
 	}
 	if !violated {
-		w.NT(fmt.Sprintf("idlewrap/%d", no))
+		w.NT(fmt.Sprintf("idlewrap/%d/%v", no, errorsOnly))
 	}
 }
